@@ -21,7 +21,7 @@ for mp in sorted(glob.glob("/verif/seeded/*/*/meta.json")):
         verdict = "; ".join(parts)
     summ = re.sub(r"\s+", " ", m.get("summary", ""))[:110].replace("|", "/")
     rows.append("| %s | %s | %s |" % (m["seed"], summ, verdict))
-table = "#### 0.6.1 Result of `tools/seedrun.py` on the current tree\n\n| seed | change (the agent's own headline) | quick check |\n|------|------|------|\n" + "\n".join(rows) + "\n"
+table = "#### 0.6.1 Result of `tools/seedrun_iso.py` on the current tree\n\n| seed | change (the agent's own headline) | quick check |\n|------|------|------|\n" + "\n".join(rows) + "\n"
 p = "/verif/DESIGN.md"
 s = open(p).read()
 if "SEEDTABLE" in s:
